@@ -304,3 +304,72 @@ func (s *slab) RowAtBad(cell int) float64 {
 func (s *slab) RowAbs(k int) float64 {
 	return s.Rows[k]
 }
+
+func doubled(xs []float64) []float64 {
+	res := make([]float64, len(xs))
+	for i, x := range xs {
+		res[i] = 2 * x
+	}
+	return res
+}
+
+func doubleInPlace(xs []float64) int {
+	for i := range xs {
+		xs[i] *= 2
+	}
+	return len(xs)
+}
+
+// want:PURECALL the doubled values are thrown away.
+func RefineBad(xs []float64) []float64 {
+	doubled(xs)
+	return xs
+}
+
+// clean:PURECALL the callee works in place; its count may be ignored.
+func RefineGood(xs []float64) []float64 {
+	doubleInPlace(xs)
+	return xs
+}
+
+// want:TICKET the first ticket is 1.
+func ClaimBad(total int, f func(int)) {
+	var next int64
+	done := make(chan struct{})
+	for g := 0; g < 4; g++ {
+		go func() {
+			defer func() { done <- struct{}{} }()
+			for {
+				idx := int(atomic.AddInt64(&next, 1))
+				if idx >= total {
+					return
+				}
+				f(idx % total)
+			}
+		}()
+	}
+	for g := 0; g < 4; g++ {
+		<-done
+	}
+}
+
+// clean:TICKET
+func ClaimGood(total int, f func(int)) {
+	var next int64
+	done := make(chan struct{})
+	for g := 0; g < 4; g++ {
+		go func() {
+			defer func() { done <- struct{}{} }()
+			for {
+				idx := int(atomic.AddInt64(&next, 1) - 1)
+				if idx >= total {
+					return
+				}
+				f(idx % total)
+			}
+		}()
+	}
+	for g := 0; g < 4; g++ {
+		<-done
+	}
+}
